@@ -2,8 +2,8 @@
 # Confirm a seeded change in its scratch worktree: suite passes with it, demo fails with it, demo passes without it.
 # usage: confirm_mut.sh <property id>   (worktree /tmp/mut-<id>, deliverables /tmp/mut-<id>-out)
 id=$1
-wt=/tmp/mut-$id
-out=/tmp/mut-$id-out
+wt=/tmp/${PFX:-mut}-$id
+out=/tmp/${PFX:-mut}-$id-out
 export CARGO_TARGET_DIR=/tmp/confirm-target CARGO_NET_OFFLINE=true
 cd $wt || exit 2
 git checkout -q -- . 2>/dev/null
